@@ -13,6 +13,8 @@ mask nor contaminate another.
 """
 import os
 import re
+import resource
+import signal
 import subprocess
 
 GFORTRAN = "/usr/bin/gfortran"
@@ -22,7 +24,15 @@ GFORTRAN = "/usr/bin/gfortran"
 FLAGS = ["-O0", "-std=f2008", "-fimplicit-none", "-fcheck=bounds",
          "-ffree-line-length-none", "-fno-diagnostics-show-caret",
          "-fdiagnostics-color=never", "-w"]
-RUN_TIMEOUT = 120
+#: a generated program needs milliseconds of CPU; one that uses more than this
+#: does not terminate (verdict).  The wall-clock limit only guards the harness
+#: (shared machine): exceeding it is a harness error, never a verdict.
+RUN_CPU_LIMIT = 20
+RUN_WALL_LIMIT = 3600
+
+
+def _limit_cpu():
+    resource.setrlimit(resource.RLIMIT_CPU, (RUN_CPU_LIMIT, RUN_CPU_LIMIT + 5))
 
 
 class GfoError(Exception):
@@ -98,7 +108,7 @@ def _gfortran(args, cwd):
     env = dict(os.environ, TMPDIR=cwd, LC_ALL="C", LANG="C")
     try:
         proc = subprocess.run([GFORTRAN] + FLAGS + args, cwd=cwd, env=env,
-                              capture_output=True, text=True, timeout=900,
+                              capture_output=True, text=True, timeout=3600,
                               check=False)
     except (OSError, subprocess.TimeoutExpired) as err:
         raise GfoError(f"cannot run gfortran: {err}") from err
@@ -219,15 +229,16 @@ class Batch:
         args = [exe] + ([str(num)] if num is not None else [])
         try:
             proc = subprocess.run(args, cwd=self.dir, capture_output=True,
-                                  text=True, timeout=RUN_TIMEOUT, check=False,
-                                  errors="replace")
+                                  text=True, timeout=RUN_WALL_LIMIT,
+                                  check=False, errors="replace",
+                                  preexec_fn=_limit_cpu)
         except subprocess.TimeoutExpired as err:
-            sofar = err.stdout or ""
-            if isinstance(sofar, bytes):
-                sofar = sofar.decode("utf-8", "replace")
-            return "timeout", sofar, "timeout"
+            raise GfoError(f"{exe} {num}: no result within {RUN_WALL_LIMIT}s "
+                           f"of wall time (overloaded machine?)") from err
         except OSError as err:
             raise GfoError(f"cannot run {exe}: {err}") from err
+        if proc.returncode in (-signal.SIGXCPU, -signal.SIGKILL):
+            return "timeout", proc.stdout, f"more than {RUN_CPU_LIMIT}s of CPU"
         if proc.returncode != 0:
             detail = ""
             for line in proc.stderr.splitlines():
